@@ -6,13 +6,80 @@ def rng_for(case, *extra):
     return np.random.default_rng([int(v) for v in case["rs"]] + [int(e) for e in extra])
 
 
+_STRUCT = [0]
+STRUCT_KINDS = ["gauss", "const", "alternating", "onehot", "small-int", "pow2", "zeros-mixed",
+                "palindrome", "denormal"]
+
+
+class structured:
+    """Context manager: inside it, crandn() returns data with structure that Gaussian draws
+    never have - constant, alternating sign, one-hot, small integers (many exact ties), signed
+    powers of two, exact zeros of both signs, palindromic, sprinkled denormals - selected by
+    `k` (0 = plain Gaussian).  Only the *data* probes of a check are drawn inside it; matrices
+    and parameters that must be generic stay Gaussian."""
+
+    def __init__(self, k):
+        self.k = int(k) % len(STRUCT_KINDS)
+
+    def __enter__(self):
+        self.old = _STRUCT[0]
+        _STRUCT[0] = self.k
+        return STRUCT_KINDS[self.k]
+
+    def __exit__(self, *a):
+        _STRUCT[0] = self.old
+
+
+def _structure(rng, a, k):
+    shape = a.shape
+    n = a.size
+    if n == 0 or k == 0:
+        return a
+    cplx = np.iscomplexobj(a)
+    c = a.reshape(-1)[0]
+    if k == 1:
+        return np.full(shape, c, a.dtype)
+    if k == 2:
+        return (c * (-1.0) ** np.arange(n)).reshape(shape).astype(a.dtype)
+    if k == 3:
+        out = np.zeros(n, a.dtype)
+        out[int(rng.integers(n))] = c
+        return out.reshape(shape)
+    if k == 4:
+        re = rng.integers(-2, 3, n).astype(float)
+        im = rng.integers(-2, 3, n).astype(float) if cplx else 0
+        return (re + 1j * im if cplx else re).reshape(shape).astype(a.dtype)
+    if k == 5:
+        re = np.sign(rng.standard_normal(n)) * 2.0 ** rng.integers(-3, 4, n)
+        im = np.sign(rng.standard_normal(n)) * 2.0 ** rng.integers(-3, 4, n) if cplx else 0
+        return (re + 1j * im if cplx else re).reshape(shape).astype(a.dtype)
+    if k == 6:
+        out = a.copy().reshape(-1)
+        z = rng.random(n) < 0.4
+        out[z] = 0
+        neg = z & (rng.random(n) < 0.5)
+        out[neg] = -0.0 if not cplx else complex(-0.0, -0.0)
+        return out.reshape(shape)
+    if k == 7:
+        flat = a.reshape(-1)
+        return ((flat + flat[::-1]) / 2).reshape(shape).astype(a.dtype)
+    out = a.copy().reshape(-1)
+    tiny = 1e-40 if a.dtype in (np.float32, np.complex64) else 5e-310
+    m = rng.random(n) < 0.3
+    out[m] = tiny
+    return out.reshape(shape)
+
+
 def crandn(rng, shape, dtype=np.complex128):
     dtype = np.dtype(dtype)
     if dtype.kind == "c":
         a = rng.standard_normal(shape) + 1j * rng.standard_normal(shape)
     else:
         a = rng.standard_normal(shape)
-    return np.asarray(a).astype(dtype)
+    a = np.asarray(a).astype(dtype)
+    if _STRUCT[0]:
+        a = _structure(rng, a, _STRUCT[0])
+    return a
 
 
 def nrm(a):
